@@ -341,7 +341,7 @@ func init() {
 	vfXModels["c05n"] = &vfXModel{Name: "c05n", NumOps: len(alpha), OpName: func(i int) string { return alpha[i].String() },
 		Exec: vfNExec(alpha), MaxDepth: func(th bool) int {
 			if th {
-				return 5
+				return 7
 			}
 			return 4
 		}}
